@@ -267,7 +267,7 @@ CLAIMED = {
     'C17': dict(
         technique='Lean 4 proof (representation invariant by induction over the store sequence; simulation between the two '
                   'builds) over address maps, array nesting and Grid/ArrayGrid wrappers regenerated from grid_type/*.rs by a '
-                  'fail-closed translator + differential correspondence run on both builds and all 256 extent tuples',
+                  'fail-closed translator + differential correspondence run on both builds (thorough tier: the unsafe build additionally at opt-level 3) and all 256 extent tuples',
         text='Theorems getAddr_eq_setAddr, addr_injective, inb_of_small (from the generated definitions), '
              'c17_{safe,unsafe}_{default_before_store, get_set_same, get_set_other, store_load, meets_spec} and '
              'c17_safe_unsafe_agree: for every dimension kind, all extents W,H,D,C (unbounded), every sequence of stores at '
@@ -298,7 +298,7 @@ CLAIMED = {
     'C07': dict(
         technique='Lean 4 proof (representation invariant preserved by every push, lifted over all histories by induction; '
                   'every accessor characterised under the invariant) over a hand-transcribed model of the four storages + '
-                  'differential correspondence run in two harness builds (with and without the `unsafe` feature)',
+                  'differential correspondence run in two harness builds (with and without the `unsafe` feature; thorough tier: the unsafe build additionally at opt-level 3)',
         text='Theorem c07_window_is_last_n: for the array, unsafe-array, unsafe-vector storages and for the vector storage after '
              'fixes/F1-window-vec.diff, every 0 < size < capacity (vector: multiple >= 2), every default value and every push '
              'history of any length, construct-and-push never panics and never violates the precondition of an unchecked '
